@@ -431,7 +431,12 @@ class FileStorage(
             pos = pos - tl - 8
             if pos < 4:
                 return 0  # insane
-            h = self._read_txn_header(pos)
+            try:
+                h = self._read_txn_header(pos)
+            except (CorruptedDataError, ValueError):
+                # A stale index (e.g. saved before a pack) points into
+                # arbitrary bytes.  (UnicodeDecodeError is a ValueError.)
+                return 0  # insane
             if not ltid:
                 ltid = h.tid
             if h.tlen != tl:
@@ -449,7 +454,10 @@ class FileStorage(
 
             while opos < tend and checked < max_checked:
                 # Read the data records for this transaction
-                h = self._read_data_header(opos)
+                try:
+                    h = self._read_data_header(opos)
+                except (CorruptedDataError, ValueError):
+                    return 0  # insane
 
                 if opos + h.recordlen() > tend or h.tloc != pos:
                     return 0
